@@ -433,6 +433,10 @@ func (c *Candidates) PunishByzantineCandidate(height uint64, tmAddress types.TmA
 	candidate := c.GetCandidateByTendermintAddress(tmAddress)
 	stakes := c.GetStakes(candidate.PubKey)
 
+	// the punished candidate goes offline: a second piece of evidence (same or later block) is then
+	// skipped by BeginBlock, and pending delegations cannot bring the dropped validator back
+	candidate.setStatus(CandidateStatusOffline)
+
 	for _, stake := range stakes {
 		newValue := big.NewInt(0).Set(stake.Value)
 		newValue.Mul(newValue, big.NewInt(95))
